@@ -149,7 +149,9 @@ def run_seq(ctx, n):
                     else:
                         name = rng.choice(list(UNITS)); u = UNITS[name]
                         k = rng.choice([rng.randint(-1000, 1000), 0, 1, -1, (IMAX - now) // u, (IMAX - now) // u + 1, (IMIN - now) // u - 1])
-                        d = k * u
+                        if u % 8 == 0 and rng.random() < 0.25:
+                            k = rng.choice([0.5, -0.5, 1.25, 2.0, -3.75, 0.125])          # the helpers take what Duration.from_<unit> takes: exact eighths here
+                        d = int(k * u)
                         if not gen.DUR_MIN_NS <= d <= gen.DUR_MAX_NS: continue
                         name = "advance_" + name; fn = (lambda name=name, k=k: getattr(c, name)(k))
                         if name in dead: continue
